@@ -108,4 +108,55 @@ theorem C01_no_split {s : St} (hs : Inv s) (m m' : Msg) (t : Int) (hm : (m.typ =
   simp only [put, hm, hkey, if_true, Bool.false_eq_true, if_false]
   exact ⟨_, appendTo_mem hs.nodup hp' hk, by simp [hm'], by simp⟩
 
+/-- a key names one event: in a buffer with distinct keys, two events with the same key are the same. -/
+theorem event_unique {b : Buf} (hnd : (keys b).Nodup) {p q : Nat × Ev} (hp : p ∈ b) (hq : q ∈ b) (hk : p.1 = q.1) : p = q := by
+  induction b with
+  | nil => cases hp
+  | cons x xs ih =>
+    simp only [keys, List.map_cons, List.nodup_cons] at hnd
+    rcases List.mem_cons.mp hp with rfl | hp'
+    · rcases List.mem_cons.mp hq with rfl | hq'
+      · rfl
+      · exact absurd (List.mem_map.mpr ⟨q, hq', hk.symm⟩) hnd.1
+    · rcases List.mem_cons.mp hq with rfl | hq'
+      · exact absurd (List.mem_map.mpr ⟨p, hp', hk⟩) hnd.1
+      · exact ih hnd.2 hp' hq'
+
+/-- No split, at the level of whole histories: take any reachable state (any history `ops`), a
+buffered message `m'` and a push of a non-EOE message `m` with the same sequence number. Then
+(1) every group this very call delivers contains both or neither, and (2) every event still
+buffered after the call contains both or neither. Together with `C01_no_split` (one event holds
+both) and exactly-once delivery, the two records can never end up in different callbacks. -/
+theorem C01_no_split_trace (maxSize timeout : Int) (ops : List Op) (m m' : Msg) (tp tc : Int)
+    (hm : (m.typ == EOE) = false)
+    (hb : m' ∈ allMsgs (run (init maxSize timeout) ops).1.buf) (hseq : m'.seq = m.seq) :
+    (∀ g ∈ groupLists (step (run (init maxSize timeout) ops).1 (.push m tp tc)).2, (m' ∈ g ↔ m ∈ g)) ∧
+    (∀ p ∈ (step (run (init maxSize timeout) ops).1 (.push m tp tc)).1.buf, (m' ∈ p.2.msgs ↔ m ∈ p.2.msgs)) := by
+  generalize hs0 : (run (init maxSize timeout) ops).1 = s at hb ⊢
+  have hs : Inv s := by rw [← hs0]; exact inv_run (inv_init _ _) ops
+  have hs1 : Inv (put s m tp) := inv_put hs m tp
+  obtain ⟨p0, hp0, hm'0, hm0⟩ := C01_no_split hs m m' tp hm hb hseq
+  -- in the buffer after Put, an event holds m' iff it holds m
+  have key : ∀ p ∈ (put s m tp).buf, (m' ∈ p.2.msgs ↔ m ∈ p.2.msgs) := by
+    intro p hp
+    constructor
+    · intro h
+      have hk : p.1 = p0.1 := by
+        rw [← hs1.uniform p hp m' h, ← hs1.uniform p0 hp0 m' hm'0]
+      rw [event_unique hs1.nodup hp hp0 hk]; exact hm0
+    · intro h
+      have hk : p.1 = p0.1 := by
+        rw [← hs1.uniform p hp m h, ← hs1.uniform p0 hp0 m hm0]
+      rw [event_unique hs1.nodup hp hp0 hk]; exact hm'0
+  constructor
+  · intro g hg
+    rw [groupLists_step] at hg
+    obtain ⟨p, hp, rfl⟩ := List.mem_map.mp hg
+    have hpre := evictedBy_prefix s (.push m tp tc)
+    exact key p (hpre.subset hp)
+  · intro p hp
+    simp only [step, evictStep] at hp
+    have hsuf := cleanUp_snd_suffix tc (put s m tp).maxSize (put s m tp).buf
+    exact key p (hsuf.subset hp)
+
 end LA.Reasm
